@@ -9,6 +9,7 @@ import (
 	"path/filepath"
 	"sort"
 	"strings"
+	"time"
 
 	"github.com/openGemini/openGemini/engine/immutable"
 )
@@ -18,7 +19,27 @@ import (
 //     that are in none of the table store's in-memory file lists
 //   - seq_behind: the sequencer is in "loaded" state and holds, for some series, a
 //     last-flush time lower than the newest time of that series in an ordered file
-func cwDiag(n *sNode, m int) (attrs map[string]string, text string) {
+// cwDiag never blocks the scheduler: the inspection takes engine locks that a parked
+// task may hold, so it runs on its own goroutine and is abandoned after 300 ms.
+func cwDiag(n *sNode, m int) (map[string]string, string) {
+	type res struct {
+		a map[string]string
+		t string
+	}
+	ch := make(chan res, 1)
+	go func() {
+		a, t := cwDiagInner(n, m)
+		ch <- res{a, t}
+	}()
+	select {
+	case r := <-ch:
+		return r.a, r.t
+	case <-time.After(300 * time.Millisecond):
+		return map[string]string{"diag": "busy"}, ""
+	}
+}
+
+func cwDiagInner(n *sNode, m int) (attrs map[string]string, text string) {
 	attrs = map[string]string{}
 	defer func() {
 		if r := recover(); r != nil {
